@@ -172,6 +172,9 @@ class Session(BusSession):
                 elif o.sender == R.BUS and o.kind == R.MT_RETURN:
                     got.append(('ret', o.rserial, tuple(o.args())))
                 elif o.body and o.body[0][0] == b's':
+                    bad = [c for c, _ in o.msg.fields if c > 9]
+                    if bad or o.sender == b':9.99':
+                        out.append(Violation('forged-field-relayed', 'held-message', '%s: %s received a held message with header field codes %r / sender %r' % (desc, l, bad, o.sender), None))
                     if o.body[0][1] in self.optional_tokens:
                         continue
                     got.append(('tok', o.body[0][1]))
@@ -217,6 +220,11 @@ class Session(BusSession):
                 self.tok += 1
                 tok = b'K%d' % self.tok
                 m = R.method_call(s, name, '/svc', 'svc.i', 'Work', [R.S(tok)], flags=1)
+                # the raw client also places fields only the bus may set or nobody knows: a message that was held for an
+                # activation must be cleaned like any other before it reaches the service
+                m.fields.append((R.F_SENDER, (b's', b':9.99')))
+                m.fields.insert(1, (200, (b'(sv)', [(b's', b'forged'), (b'v', (b'u', 7))])))
+                m.fields.append((R.F_CONTAINER_INSTANCE, (b'o', b'/forged/instance')))
             elif kind == 'fcall':
                 self.tok += 1
                 tok = b'F%d' % self.tok
